@@ -1,6 +1,6 @@
 /-
 C14 — PROPERTY THEOREMS (statements rely on Model.lean / Spec.lean only; helper lemmas live in
-ProofsHeader / ProofsRaw / ProofsStream / ProofsRpc).
+ProofsHeader / ProofsRaw / ProofsStream / ProofsRpc / ProofsRing / ProofsTime / ProofsServer).
 
 Property: "For each of the three framings, any byte stream - however segmented - is decoded into
 the same sequence of JSON messages as the unsegmented stream, every message written by the
@@ -270,18 +270,24 @@ theorem C14_raw_segmentation {μ : Type} (parse : List Byte → Option μ) (segs
   have h := C14_stream_segmentation decodeRaw parse C14_raw_resumable.1 C14_raw_resumable.2 (by decide) segs
   ⟨h.1, h.2.1⟩
 
-/-! ## (4) pending requests: each completion callback runs at most once -/
+/-! ## (4) pending requests: each completion callback runs exactly once
+
+User callbacks are *scripts* (`Prog`): completion callbacks (also run by the timeout), and service
+handlers, that call back into the same object — `request`, `notify`, `respond`, a response frame fed
+to the proto from inside the callback, `addService`, `cleanup()` — nested to any depth. -/
 
 /-- no callback tag is pending twice and every pending tag has been handed out -/
 def RInv (s : Rpc) : Prop := ∀ t, pendCount t s.pending ≤ (if t < s.nTag then 1 else 0)
 
-theorem RInv_init (n : Nat) : RInv (Rpc.init n) := by intro t; simp [Rpc.init, pendCount]
+theorem RInv_init (n : Nat) (p : Prog) : RInv { Rpc.init n with prog := p } := by
+  intro t; simp [Rpc.init, pendCount]
 
-/-- **C14_callback_once.** For every sequence of requests (plain or issuing a further request from
-inside the callback), notifications, responses (any id, any order, duplicated, unknown) and ticks,
-from any consistent state: every completion callback runs at most once; a callback that has run
-is no longer pending (so nothing can run it again); and no callback runs that was never handed to
-`request`. -/
+/-- **C14_callback_once.** For every program of callback scripts (re-entrant requests, duplicate
+responses injected from inside callbacks, `cleanup()`, service replacement — anything), every sequence
+of requests, notifications, responses (any id, any order, duplicated, unknown), inbound requests,
+`respond()` calls, `cleanup()` and ticks, from any consistent state: every completion callback runs at
+most once; a callback that has run is no longer pending (so nothing can run it again); and no
+callback runs that was never handed to `request`. -/
 theorem C14_callback_once (s : Rpc) (h : RInv s) (ops : List Op) (t : Nat) :
     firedCount t (run s ops).2 ≤ 1 ∧
     firedCount t (run s ops).2 + pendCount t (run s ops).1.pending ≤ 1 ∧
@@ -300,39 +306,69 @@ theorem C14_callback_once (s : Rpc) (h : RInv s) (ops : List Op) (t : Nat) :
     have h2 := h u
     split at h1 <;> split at h2 <;> split <;> omega
 
+/-- **C14_callback_once_counterexample** (the tree before
+patches/C14-05-completion-callback-reentrancy.diff: `iter->second(...)` first, `erase(iter)` afterwards):
+a completion callback that feeds the same response again (a duplicate arriving while the callback
+runs) is run a second time — and again from there, until the stack is exhausted; the repaired order
+runs it once. -/
+theorem C14_callback_once_counterexample :
+    let s := (({ Rpc.init 2 with prog := { cbs := [[.inject 1 0]] } } : Rpc).request 0).1
+    (Rpc.completeOrigF 2 s 1 0).2 = [.fired 0 0, .fired 0 0, .overflow] ∧
+    (s.complete 1 0).2 = [.fired 0 0] := by decide
+
+theorem firedCount_pos_of_mem (t : Nat) (code : Int) (evs : List REv) (h : REv.fired t code ∈ evs) :
+    1 ≤ firedCount t evs := by
+  induction evs with
+  | nil => simp at h
+  | cons e es ih =>
+    rcases List.mem_cons.mp h with h | h
+    · subst h; simp [firedCount]
+    · have := ih h
+      cases e <;> simp [firedCount] <;> omega
+
+theorem complete_head (s : Rpc) (id code : Int) (k : Nat) (cb : Cb)
+    (h : pendingFind s.pending id = some (k, cb)) :
+    ∃ rest, (s.complete id code).2 = .fired cb.tag code :: rest := by
+  show ∃ rest, (Rpc.completeF (31 + 1) s id code).2 = _
+  rw [Rpc.completeF, h]
+  exact ⟨_, rfl⟩
+
 /-- **C14_callback_code.** A response whose id is pending runs exactly that request's callback,
 first, with the response's code (`0` + result, or the error code). -/
 theorem C14_callback_code (s : Rpc) (id code : Int) (k : Nat) (cb : Cb)
     (h : pendingFind s.pending id = some (k, cb)) :
     (s.complete id code).2.head? = some (.fired cb.tag code) ∧ (k : Int) = id := by
-  refine ⟨?_, (pendingFind_mem _ _ _ _ h).2⟩
-  unfold Rpc.complete Rpc.fire
-  simp only [h]
-  split <;> simp
+  obtain ⟨rest, hr⟩ := complete_head s id code k cb h
+  exact ⟨by rw [hr]; rfl, (pendingFind_mem _ _ _ _ h).2⟩
 
-/-- **C14_callback_ignored.** A response whose id is not pending — unknown, duplicate, or late
-(already completed by a response or by the timeout) — causes no callback and changes nothing; and
-after a (non-chaining) completion the id is not pending any more, so a duplicate *is* such a
-response. -/
+/-- **C14_callback_ignored.** (a) A response whose id is not pending — unknown, duplicate, or late
+(already completed by a response or by the timeout) — causes no callback and changes nothing.
+(b) While the completion of `id` is in progress the entry is already gone: whatever the callback
+script does — feed the same response again (at any nesting depth), issue new requests, clean up —
+the callback runs exactly once during the completion and `id` is not pending afterwards, so every
+later duplicate is a response of kind (a). -/
 theorem C14_callback_ignored (s : Rpc) (id code : Int) :
     (pendingFind s.pending id = none → s.complete id code = (s, [])) ∧
-    (∀ k cb, pendingFind s.pending id = some (k, cb) → cb.chain = false →
+    (∀ k cb, pendingFind s.pending id = some (k, cb) → RInv s → k ≤ s.idAlloc →
+      firedCount cb.tag (s.complete id code).2 = 1 ∧
       pendingFind (s.complete id code).1.pending id = none) := by
   constructor
-  · intro h; unfold Rpc.complete; simp [h]
-  · intro k cb h hc
-    have hk := (pendingFind_mem _ _ _ _ h).2
-    unfold Rpc.complete Rpc.fire
-    simp only [h, hc, Bool.false_eq_true, if_false]
-    unfold pendingFind pendingErase
-    rw [List.find?_eq_none]
-    intro e he
-    simp only [List.mem_filter, decide_eq_true_eq] at he
-    simp only [decide_eq_true_eq]
-    intro heq
-    apply he.2
-    have : (e.1 : Int) = (k : Int) := by rw [heq, hk]
-    exact Int.ofNat_inj.mp this
+  · intro h
+    show Rpc.completeF (31 + 1) s id code = (s, [])
+    rw [Rpc.completeF, h]
+  · intro k cb h hinv hle
+    obtain ⟨hmem, hk⟩ := pendingFind_mem _ _ _ _ h
+    obtain ⟨rest, hr⟩ := complete_head s id code k cb h
+    have hge : 1 ≤ firedCount cb.tag (s.complete id code).2 :=
+      firedCount_pos_of_mem _ code _ (by rw [hr]; simp)
+    have hpc : 1 ≤ pendCount cb.tag s.pending := by
+      have := pendCount_erase_mem cb.tag k cb s.pending hmem
+      simp at this; omega
+    have hd := (Delta_complete s id code).2 cb.tag
+    have hi := hinv cb.tag
+    refine ⟨by split at hd <;> split at hi <;> omega, ?_⟩
+    rw [← hk]
+    exact (NotPend_complete s k code hle).2
 
 /-- **C14_tick_slot.** A tick hands exactly the ids of the slot that follows the current one to
 the timeout handler (each is completed with the timeout code if still pending, ignored otherwise)
@@ -353,22 +389,26 @@ theorem C14_response_id_range (s : Rpc) (rid code : Int)
 /-- **C14_response_id_counterexample** (the tree before patches/C14-04-json-get-int-range.diff):
 `get<int>()` truncates, so the unknown id 4294967297 (= 2³² + 1) completes request 1. -/
 theorem C14_response_id_counterexample :
-    (Rpc.respondG false ((Rpc.init 3).request false).1 4294967297 0).2 = [.fired 0 0] ∧
-    (((Rpc.init 3).request false).1.respond 4294967297 0).2 = [] := by decide
+    (Rpc.respondG false ((Rpc.init 3).request 0).1 4294967297 0).2 = [.fired 0 0] ∧
+    (((Rpc.init 3).request 0).1.respond 4294967297 0).2 = [] := by decide
 
 /-- **C14_ring_expiry.** From any state of the monitor (non-degenerate ring, ids in it not above
-the id counter), a request adds its id `x`; then for *every* continuation — requests (their ids are
-added to the then-current slot), responses, notifications, ticks, and requests issued from inside
-timeout callbacks while a tick is being processed (slot swapped out first, then the callbacks) —
-the list of ids handed to the timeout handler by the `j`-th following tick (counted from 0)
-contains `x` exactly once if `j + 1 = N` (the number of slots) and not at all otherwise: `x` expires
-at exactly the `N`-th following tick, once, never earlier, never again. -/
-theorem C14_ring_expiry (s : Rpc) (hr : s.ring ≠ []) (hf : ∀ y ∈ s.ring.flatten, y ≤ s.idAlloc)
-    (c : Bool) (ops : List Op) (j : Nat) (items : List Nat)
-    (h : (runHanded (s.request c).1 ops)[j]? = some items) :
+the id counter), a request adds its id `x`; then for *every* continuation — requests, responses,
+notifications, inbound requests, ticks, and every callback script run on the way (requests issued
+from inside completion / timeout callbacks and service handlers, responses injected re-entrantly,
+slot swapped out first, then the callbacks) — as long as the object is not cleaned up, the list of ids
+handed to the timeout handler by the `j`-th following tick (counted from 0) contains `x` exactly once
+if `j + 1 = N` (the number of slots) and not at all otherwise: `x` expires at exactly the `N`-th
+following tick, once, never earlier, never again.  (`cleanup()` empties the ring by design:
+`C14_cleanup_final`.) -/
+theorem C14_ring_expiry (s : Rpc) (hs : Prog.safe s.prog) (hr : s.ring ≠ [])
+    (hf : ∀ y ∈ s.ring.flatten, y ≤ s.idAlloc)
+    (c m : Nat) (ops : List Op) (hnc : NoCleanupOps ops) (j : Nat) (items : List Nat)
+    (h : (runHanded (s.request c m).1 ops)[j]? = some items) :
     items.count (s.idAlloc + 1) = if j + 1 = s.ring.length then 1 else 0 := by
-  have hl := Live_request s c hr hf
-  rw [Live_run (s.idAlloc + 1) ops _ _ hl j items h]
+  have hl := Live_request s c m hr hf
+  have hs' : Safe (s.request c m).1 := Safe_of_prog _ _ (request_prog s c m) hs
+  rw [Live_run (s.idAlloc + 1) ops _ _ hs' hnc hl j items h]
   have : 0 < s.ring.length := List.length_pos_iff.mpr hr
   by_cases hj : j = s.ring.length - 1
   · have : j + 1 = s.ring.length := by omega
@@ -376,81 +416,104 @@ theorem C14_ring_expiry (s : Rpc) (hr : s.ring ≠ []) (hf : ∀ y ∈ s.ring.fl
   · have : ¬ j + 1 = s.ring.length := by omega
     rw [if_neg hj, if_neg this]
 
-/-- **C14_callback_timeout.** A request (callback tag `s.nTag`) whose id gets no response —
-whatever else happens: other requests, responses to other ids (duplicated, unknown, beyond `int`),
-notifications, chained requests — is still pending after `N − 1` ticks, its callback has not run,
-and the `N`-th tick runs it with the timeout code. -/
+theorem RInv_request (s : Rpc) (hinv : RInv s) (c m : Nat) : RInv (s.request c m).1 := by
+  intro u
+  have h1 := (Delta_request s c m).2 u
+  have h2 := hinv u
+  have hn : (s.request c m).1.nTag = s.nTag + 1 := (request_fields s c m).2.2.2.1
+  rw [hn] at h1 ⊢
+  split at h1 <;> split at h2 <;> split <;> omega
+
+theorem Pend_not_fired (s : Rpc) (hinv : RInv s) (ops : List Op) (id : Nat) (cb : Cb)
+    (hp : Pend (run s ops).1 id cb) : firedCount cb.tag (run s ops).2 = 0 := by
+  have hacc := (C14_callback_once s hinv ops cb.tag).2.1
+  have hmem := (pendingFind_mem _ _ _ _ hp.1).1
+  have := pendCount_erase_mem cb.tag id cb _ hmem
+  simp at this; omega
+
+/-- **C14_callback_timeout.** A request (callback tag `s.nTag`) whose id gets no response — neither
+from the peer nor fed re-entrantly by a callback script (`QuietFor`: no script injects a response for
+this id or calls `cleanup()`) — whatever else happens: other requests, responses to other ids
+(duplicated, unknown, beyond `int`), notifications, inbound requests, scripts re-entering the object —
+is still pending after `N − 1` ticks, its callback has not run, and the `N`-th tick runs it with the
+timeout code. -/
 theorem C14_callback_timeout (s : Rpc) (hr : s.ring ≠ []) (hf : ∀ y ∈ s.ring.flatten, y ≤ s.idAlloc)
-    (hinv : RInv s) (c : Bool) (ops : List Op) (hno : NoResponseFor (s.idAlloc + 1) ops)
+    (hinv : RInv s) (hq : QuietFor s (s.idAlloc + 1)) (c m : Nat) (ops : List Op)
+    (hno : NoResponseFor (s.idAlloc + 1) ops) (hnc : NoCleanupOps ops)
     (ht : ticks ops + 1 = s.ring.length) :
-    firedCount s.nTag (run (s.request c).1 ops).2 = 0 ∧
-    REv.fired s.nTag kRequestTimeout ∈ (run (s.request c).1 ops).1.tick.2 := by
-  have hl := Live_request s c hr hf
-  have hp := Pend_new s c
-  obtain ⟨hp', hi'⟩ := Track_run (s.idAlloc + 1) { tag := s.nTag, chain := c } ops (s.request c).1
-    (s.ring.length - 1) hp hl.2.1 hno (by omega)
-  refine ⟨?_, Track_fire _ _ _ hp' hi'⟩
-  -- still pending ⇒ not fired (at-most-once accounting)
-  have hinv1 : RInv (s.request c).1 := by
-    have := (C14_callback_once s hinv [.request c] 0).2.2.2
-    simpa [run, step] using this
-  have hacc := (C14_callback_once (s.request c).1 hinv1 ops s.nTag).2.1
-  have hmem := (pendingFind_mem _ _ _ _ hp'.1).1
-  have hpos : 1 ≤ pendCount s.nTag (run (s.request c).1 ops).1.pending := by
-    have := pendCount_erase_mem s.nTag (s.idAlloc + 1) { tag := s.nTag, chain := c } _ hmem
-    simp at this; omega
-  omega
-
-theorem run_append (s : Rpc) (a b : List Op) :
-    run s (a ++ b) = ((run (run s a).1 b).1, (run s a).2 ++ (run (run s a).1 b).2) := by
-  induction a generalizing s with
-  | nil => simp [run]
-  | cons op a ih => simp only [List.cons_append, run, ih, List.append_assoc]
-
-theorem firedCount_pos_of_mem (t : Nat) (code : Int) (evs : List REv) (h : REv.fired t code ∈ evs) :
-    1 ≤ firedCount t evs := by
-  induction evs with
-  | nil => simp at h
-  | cons e es ih =>
-    rcases List.mem_cons.mp h with h | h
-    · subst h; simp [firedCount]
-    · have := ih h
-      cases e <;> simp [firedCount] <;> omega
+    firedCount s.nTag (run (s.request c m).1 ops).2 = 0 ∧
+    REv.fired s.nTag kRequestTimeout ∈ (run (s.request c m).1 ops).1.tick.2 := by
+  have hl := Live_request s c m hr hf
+  have hp := Pend_new s c m
+  have hq1 : QuietFor (s.request c m).1 (s.idAlloc + 1) := QuietFor_of_prog _ _ _ (request_prog s c m) hq
+  obtain ⟨hp', hi'⟩ := Track_run (s.idAlloc + 1) { tag := s.nTag, script := c } ops (s.request c m).1
+    (s.ring.length - 1) hq1 hp hl.2.1 hno hnc (by omega)
+  have hq2 : QuietFor (run (s.request c m).1 ops).1 (s.idAlloc + 1) :=
+    QuietFor_of_prog _ _ _ (run_prog ops _) hq1
+  exact ⟨Pend_not_fired _ (RInv_request s hinv c m) ops _ _ hp', Track_fire _ _ _ hq2 hp' hi'⟩
 
 /-- **C14_callback_exactly_once.** … hence, in every history in which the request gets no
-response and at least `N` ticks happen, its callback runs exactly once (and that run is the
-timeout of the `N`-th tick; `C14_callback_code` covers the case of a matching response). -/
+response and at least `N` ticks happen, its callback runs exactly once (that run is the timeout of
+the `N`-th tick) — whatever follows (`more`: late responses, duplicates, `cleanup()`, anything). -/
 theorem C14_callback_exactly_once (s : Rpc) (hr : s.ring ≠ []) (hf : ∀ y ∈ s.ring.flatten, y ≤ s.idAlloc)
-    (hinv : RInv s) (c : Bool) (ops more : List Op) (hno : NoResponseFor (s.idAlloc + 1) ops)
+    (hinv : RInv s) (hq : QuietFor s (s.idAlloc + 1)) (c m : Nat) (ops more : List Op)
+    (hno : NoResponseFor (s.idAlloc + 1) ops) (hnc : NoCleanupOps ops)
     (ht : ticks ops + 1 = s.ring.length) :
-    firedCount s.nTag (run (s.request c).1 (ops ++ .tick :: more)).2 = 1 := by
-  have hinv1 : RInv (s.request c).1 := by
-    have := (C14_callback_once s hinv [.request c] 0).2.2.2
-    simpa [run, step] using this
-  have hmost := (C14_callback_once (s.request c).1 hinv1 (ops ++ .tick :: more) s.nTag).1
-  have hfire := (C14_callback_timeout s hr hf hinv c ops hno ht).2
-  have : 1 ≤ firedCount s.nTag (run (s.request c).1 (ops ++ .tick :: more)).2 := by
+    firedCount s.nTag (run (s.request c m).1 (ops ++ .tick :: more)).2 = 1 := by
+  have hinv1 := RInv_request s hinv c m
+  have hmost := (C14_callback_once (s.request c m).1 hinv1 (ops ++ .tick :: more) s.nTag).1
+  have hfire := (C14_callback_timeout s hr hf hinv hq c m ops hno hnc ht).2
+  have : 1 ≤ firedCount s.nTag (run (s.request c m).1 (ops ++ .tick :: more)).2 := by
     rw [run_append]
     simp only [run, step, firedCount_append]
     have := firedCount_pos_of_mem _ _ _ hfire
     omega
   omega
 
-/-- **C14_pending_timer_on.** In every state reachable from `initialize(proto, N)` (`N ≥ 1`) by
-any op sequence: every pending request's id is in the ring, `value_number_` is the ring's size, and
-the 1-s timer is enabled iff the ring is non-empty — so while a request is pending the ticks that
-will time it out do happen. -/
-theorem C14_pending_timer_on (n : Nat) (hn : 1 ≤ n) (ops : List Op) :
-    let s := (run (Rpc.init n) ops).1
-    (s.pending ≠ [] → s.timerOn = true) ∧ (∀ e ∈ s.pending, e.1 ∈ s.ring.flatten) ∧
-    s.vn = s.ring.flatten.length ∧ (s.timerOn = true ↔ 0 < s.vn) := by
-  have h := TInv_run ops _ (TInv_init n hn)
-  obtain ⟨h1, h2, h3, h4⟩ := h
-  have hmem : ∀ e ∈ (run (Rpc.init n) ops).1.pending, e.1 ∈ (run (Rpc.init n) ops).1.ring.flatten := by
-    intro e he; rcases h4 e he with h | h
-    · exact h
-    · simp at h
-  refine ⟨?_, hmem, h2, h3⟩
+/-- **C14_callback_response.** The other half: a request that gets no response while fewer than `N`
+ticks happen (`pre`) and then the first response carrying its id (after the `int` getter) — its
+callback has not run before, runs at that response, first, with the response's code, and exactly once
+in the whole history, whatever follows (`more`: duplicates, ticks past the deadline, re-entrant
+duplicates fed by the callback itself, `cleanup()`). -/
+theorem C14_callback_response (s : Rpc) (hr : s.ring ≠ []) (hf : ∀ y ∈ s.ring.flatten, y ≤ s.idAlloc)
+    (hinv : RInv s) (hq : QuietFor s (s.idAlloc + 1)) (c m : Nat) (pre more : List Op) (rid code : Int)
+    (hno : NoResponseFor (s.idAlloc + 1) pre) (hnc : NoCleanupOps pre) (ht : ticks pre < s.ring.length)
+    (hrid : respIdG true rid = some ((s.idAlloc + 1 : Nat) : Int)) :
+    firedCount s.nTag (run (s.request c m).1 pre).2 = 0 ∧
+    (step (run (s.request c m).1 pre).1 (.response rid code)).2.head? = some (.fired s.nTag code) ∧
+    firedCount s.nTag (run (s.request c m).1 (pre ++ .response rid code :: more)).2 = 1 := by
+  have hl := Live_request s c m hr hf
+  have hp := Pend_new s c m
+  have hq1 : QuietFor (s.request c m).1 (s.idAlloc + 1) := QuietFor_of_prog _ _ _ (request_prog s c m) hq
+  have hp' := Track_run_le (s.idAlloc + 1) { tag := s.nTag, script := c } pre (s.request c m).1
+    (s.ring.length - 1) hq1 hp hl.2.1 hno hnc (by omega)
+  have hinv1 := RInv_request s hinv c m
+  have h0 := Pend_not_fired _ hinv1 pre _ _ hp'
+  obtain ⟨rest, hrest⟩ := complete_head (run (s.request c m).1 pre).1 _ code _ _ hp'.1
+  have hstep : (step (run (s.request c m).1 pre).1 (.response rid code)).2 = .fired s.nTag code :: rest := by
+    simp only [step, Rpc.respond, Rpc.respondG, hrid]
+    exact hrest
+  refine ⟨h0, by rw [hstep]; rfl, ?_⟩
+  have hmost := (C14_callback_once (s.request c m).1 hinv1 (pre ++ .response rid code :: more) s.nTag).1
+  have : 1 ≤ firedCount s.nTag (run (s.request c m).1 (pre ++ .response rid code :: more)).2 := by
+    rw [run_append]
+    simp only [run, firedCount_append, hstep, firedCount]
+    simp only [if_true]
+    omega
+  omega
+
+/-- **C14_pending_timer_on.** In every state reachable from `initialize(proto, N)` (`N ≥ 1`) with any
+program of callback scripts (`cleanup()` from inside callbacks included) by any op sequence: every
+pending request's id is in the ring, `value_number_` is the ring's size, the 1-s timer is enabled iff
+something is monitored — so while a request is pending the ticks that will time it out do happen — and
+an object that has been cleaned up (at top level or from inside a completion callback, a timeout
+callback or a service handler) has nothing pending, nothing monitored and its timer off. -/
+theorem C14_pending_timer_on (n : Nat) (hn : 1 ≤ n) (p : Prog) (ops : List Op) :
+    let s := (run { Rpc.init n with prog := p } ops).1
+    (s.pending ≠ [] → s.timerOn = true) ∧ Monitored s ∧ (s.dead = true → Cleaned s) := by
+  have h := MInv_monitored _ (MInv_run ops _ (MInv_init n hn p))
+  obtain ⟨⟨hmem, h2, h3⟩, hdead⟩ := h
+  refine ⟨?_, ⟨hmem, h2, h3⟩, hdead⟩
   intro hne
   obtain ⟨e, he⟩ := List.exists_mem_of_ne_nil _ hne
   have := hmem e he
@@ -462,8 +525,287 @@ theorem C14_pending_timer_on (n : Nat) (hn : 1 ≤ n) (ops : List Op) :
 the callbacks, timer disabled after them): a request re-issued from its own timeout callback stays
 pending with the timer off, so it never completes. -/
 theorem C14_pending_timer_on_counterexample :
-    let s := (((Rpc.init 1).request true).1.tickSeeded).1
+    let s := ((({ Rpc.init 1 with prog := { cbs := [[.request 1 0]] } } : Rpc).request 0).1.tickSeeded).1
     s.pending ≠ [] ∧ s.timerOn = false := by decide
+
+/-- **C14_cleanup_in_callback.** A callback script that calls `cleanup()` — a completion callback run
+by a response or by the timeout, or a service handler; at top level or nested inside other callbacks —
+returns with the object cleaned up (whatever its other acts are: calls after the `cleanup()` are refused,
+`misuse`), … -/
+theorem C14_cleanup_in_callback (s : Rpc) (cur : Int) (as : List Act) (h : Act.cleanup ∈ as) :
+    (s.runActs cur as).1.dead = true ∧
+    (∀ id code k cb, pendingFind s.pending id = some (k, cb) → Act.cleanup ∈ s.prog.cbs.getD cb.script [] →
+      (s.complete id code).1.dead = true) := by
+  refine ⟨runActsF_cleanup_dead maxDepth cur as s h, ?_⟩
+  intro id code k cb hf hc
+  show (Rpc.completeF (31 + 1) s id code).1.dead = true
+  rw [Rpc.completeF, hf]
+  exact runActsF_cleanup_dead 31 0 _ _ hc
+
+/-- **C14_cleanup_final.** … and from a cleaned-up object (`C14_pending_timer_on`: dead ⇒ nothing
+pending, nothing monitored, timer off) no completion callback ever runs again, whatever arrives:
+late responses, ticks, requests, and it stays cleaned up.  In particular a `cleanup()` made by one
+timeout callback lets the rest of the sweep find nothing (`C14_timeout_cleanup_counterexample` for the
+code as found). -/
+theorem C14_cleanup_final (s : Rpc) (h : Cleaned s) (ops : List Op) :
+    Cleaned (run s ops).1 ∧ ∀ t, firedCount t (run s ops).2 = 0 :=
+  Cleaned_run ops s h
+
+/-- **C14_timeout_cleanup_counterexample** (the tree before
+patches/C14-06-timeout-monitor-cleanup-in-callback.diff): three requests expire at the same tick, the
+first timeout callback calls `cleanup()` — which clears `cb_`, the very function object the sweep is
+calling: the next id calls an empty `std::function` and `std::bad_function_call` leaves `onTimerTick`
+(`true`).  The repaired sweep calls a copy: one callback, the other two ids find nothing. -/
+theorem C14_timeout_cleanup_counterexample :
+    let s := (run ({ Rpc.init 1 with prog := { cbs := [[.cleanup], []] } } : Rpc)
+                [.request 0 0, .request 1 0, .request 1 1]).1
+    s.tickOrig.2 = ([.fired 0 kRequestTimeout], true) ∧
+    s.tick.2 = [.fired 0 kRequestTimeout] ∧ Cleaned s.tick.1 := by decide
+
+/-! ## (6) server half -/
+
+/-- **C14_server_request_answer.** One inbound request, for every handler script: an unknown method
+(never added, or replaced by an empty callback) is answered with exactly one `kMethodNotFound` error;
+otherwise the handler that was registered *when the request arrived* runs (a handler replacing or
+removing itself does not change what runs), then: a synchronous service is answered by the library
+exactly once, after the script, with the service's code (a notification, id 0, is not answered); an
+asynchronous one is not answered by the library and its id is handed to the respond-timeout monitor; and
+if the handler cleaned the object up the library does nothing more with it. -/
+theorem C14_server_request_answer (s : Rpc) (id : Int) (m : Nat) :
+    ((s.services.getD m none).bind (fun h => (s.prog.hs[h]?).map (fun hd => (h, hd))) = none →
+      s.onRequest id m = (s, [.answered id kMethodNotFound])) ∧
+    (∀ h hd, (s.services.getD m none).bind (fun h => (s.prog.hs[h]?).map (fun hd => (h, hd))) = some (h, hd) →
+      let r := ({ s with srv := s.srv.insert id } : Rpc).runActs id hd.acts
+      (id = 0 → (s.onRequest id m).2 = .called 0 h :: (s.runActs 0 hd.acts).2) ∧
+      (id ≠ 0 → r.1.dead = true → s.onRequest id m = (r.1, .called id h :: r.2)) ∧
+      (id ≠ 0 → r.1.dead = false → ∀ code, hd.ret = .sync code →
+        (s.onRequest id m).2 = .called id h :: (r.2 ++ [.answered id code])) ∧
+      (id ≠ 0 → r.1.dead = false → hd.ret = .async →
+        s.onRequest id m = ({ r.1 with srv := r.1.srv.monitorAdd id }, .called id h :: r.2))) := by
+  constructor
+  · intro h; unfold Rpc.onRequest; rw [h]
+  · intro h hd hl
+    refine ⟨?_, ?_, ?_, ?_⟩
+    · intro h0; subst h0; unfold Rpc.onRequest; rw [hl]; simp
+    · intro h0 hdead; unfold Rpc.onRequest; rw [hl]; simp [h0, hdead]
+    · intro h0 hdead code hret
+      unfold Rpc.onRequest; rw [hl]; simp [h0, hdead, hret, Rpc.apiRespond]
+    · intro h0 hdead hret
+      unfold Rpc.onRequest; rw [hl]; simp [h0, hdead, hret]
+
+/-- **C14_handler_cleanup_counterexample** (the tree before
+patches/C14-07-service-handler-reentrancy.diff): a synchronous handler that calls `cleanup()` — the
+library goes on to `respond()` through the null `proto_` (`misuse`: a null dereference); the repaired
+code stops after the handler. -/
+theorem C14_handler_cleanup_counterexample :
+    let s := ({ Rpc.init 2 with prog := { hs := [⟨[.cleanup], .sync 0⟩] } } : Rpc).setService 0 (some 0)
+    (s.onRequestOrig 1 0).2 = [.called 1 0, .misuse] ∧ (s.onRequest 1 0).2 = [.called 1 0] ∧
+    Cleaned (s.onRequest 1 0).1 := by decide
+
+/-- **C14_server_respond_unchecked** (as coded; outside the statement of C14, which speaks of the
+requesting side): `respond()` does not consult `tobe_respond_` — it sends for an id that was never
+requested, sends again when called twice, and still sends after the respond timeout has dropped
+the id. -/
+theorem C14_server_respond_unchecked :
+    let s := ({ Rpc.init 1 with prog := { hs := [⟨[], .async⟩] } } : Rpc).setService 0 (some 0)
+    ((Rpc.init 2).apiRespond 9 0).2 = [.answered 9 0] ∧
+    (run s [.inRequest 1 0, .apiRespond 1 0, .apiRespond 1 0]).2 = [.called 1 0, .answered 1 0, .answered 1 0] ∧
+    (run s [.inRequest 1 0, .stick, .apiRespond 1 0]).2 = [.called 1 0, .answered 1 0] ∧
+    (run s [.inRequest 1 0, .stick]).1.srv.tobe = [] := by decide
+
+/-! ## (7) two peers: each peer's guarantees hold against any other peer and any pipe -/
+
+/-- **C14_world_peer_simulation.** Whatever the other peer and the pipe do (answer late, never,
+twice; drop, duplicate, reorder), what happens at a peer is a run of the one-object model on the op
+sequence `peerOps` (its own API calls, the frames actually delivered to it). -/
+theorem C14_world_peer_simulation (onB : Bool) (ops : List WOp) : ∀ w : World,
+    (w.run ops).1.peer onB = (run (w.peer onB) (peerOps w onB ops)).1 ∧
+    peerEvs (w.run ops).2 onB = (run (w.peer onB) (peerOps w onB ops)).2 := by
+  induction ops with
+  | nil => intro w; cases onB <;> simp [World.run, peerOps, run, peerEvs]
+  | cons op ops ih =>
+    intro w
+    obtain ⟨h1, h2⟩ := world_step_peer w op onB
+    obtain ⟨i1, i2⟩ := ih (w.step op).1
+    simp only [World.run, peerOps, run_append]
+    rw [← h1, ← h2, ← i1, ← i2]
+    cases onB <;> exact ⟨rfl, rfl⟩
+
+/-- **C14_world_callback_once.** … hence, in the two-peer system, every completion callback of either
+peer runs at most once, for every program of scripts, every behaviour of the other peer and of the pipe. -/
+theorem C14_world_callback_once (w : World) (onB : Bool) (h : RInv (w.peer onB)) (ops : List WOp) (t : Nat) :
+    firedCount t (peerEvs (w.run ops).2 onB) ≤ 1 := by
+  rw [(C14_world_peer_simulation onB ops w).2]
+  exact (C14_callback_once _ h _ t).1
+
+/-- **C14_world_callback_exactly_once.** … and a request of peer a for which no response with its id is
+delivered while a sees `N − 1` of its ticks (the other peer answers never, or late, or its answers are
+lost) is completed exactly once, by the timeout of the `N`-th tick — later deliveries of late or
+duplicated answers included (`more`). -/
+theorem C14_world_callback_exactly_once (w : World) (hr : w.a.ring ≠ [])
+    (hf : ∀ y ∈ w.a.ring.flatten, y ≤ w.a.idAlloc) (hinv : RInv w.a) (hd : w.a.dead = false)
+    (hq : QuietFor w.a (w.a.idAlloc + 1)) (c m : Nat) (ops more : List WOp)
+    (hno : NoResponseFor (w.a.idAlloc + 1) (peerOps (w.step (.api false (.request c m))).1 false ops))
+    (hnc : NoCleanupOps (peerOps (w.step (.api false (.request c m))).1 false ops))
+    (ht : ticks (peerOps (w.step (.api false (.request c m))).1 false ops) + 1 = w.a.ring.length) :
+    firedCount w.a.nTag (w.run (.api false (.request c m) :: (ops ++ .api false .tick :: more))).2.1 = 1 := by
+  have hsim := (C14_world_peer_simulation false (.api false (.request c m) :: (ops ++ .api false .tick :: more)) w).2
+  simp only [peerEvs, World.peer, Bool.false_eq_true, if_false] at hsim
+  rw [hsim]
+  have happ : ∀ (a b : List WOp) (v : World), peerOps v false (a ++ b) = peerOps v false a ++ peerOps (v.run a).1 false b := by
+    intro a
+    induction a with
+    | nil => intro b v; simp [peerOps, World.run]
+    | cons x xs ih => intro b v; simp only [List.cons_append, peerOps, World.run, ih, List.append_assoc]
+  have hsplit : peerOps w false (.api false (.request c m) :: (ops ++ .api false .tick :: more)) =
+      .request c m :: (peerOps (w.step (.api false (.request c m))).1 false ops ++
+        .tick :: peerOps (((w.step (.api false (.request c m))).1.run ops).1.step (.api false .tick)).1 false more) := by
+    simp only [peerOps, peerOp, happ, if_true, List.cons_append, List.nil_append]
+  rw [hsplit]
+  simp only [run]
+  have hg : step w.a (.request c m) = w.a.request c m := by simp [step, Rpc.guard, hd]
+  have ha : (w.step (.api false (.request c m))).1.a = (w.a.request c m).1 := by
+    simp [World.step, World.apply, hg]
+  rw [hg]
+  have := C14_callback_exactly_once w.a hr hf hinv hq c m _
+    (peerOps (((w.step (.api false (.request c m))).1.run ops).1.step (.api false .tick)).1 false more) hno hnc ht
+  simp only [firedCount_append]
+  have h0 : firedCount w.a.nTag (w.a.request c m).2 = 0 := by simp [Rpc.request, firedCount]
+  omega
+
+/-! ## (8) the deadline in milliseconds, under the tick timer as coded -/
+
+/-- **C14_timer_phase.** Along every timed history (any program of scripts, any API calls and arriving
+messages, clock advances of any size) from `initialize(proto, N)`: while the 1-s timer is enabled its
+next expiry lies in `(now, now + 1000]` — in particular the fuel `ms / 1000 + 2` of the loop's catch-up
+(`handleExpiredTimers`) always suffices: no due tick is left unexecuted — and the monitor invariant
+(`C14_pending_timer_on`) holds. -/
+theorem C14_timer_phase (n : Nat) (hn : 1 ≤ n) (p : Prog) (ops : List TOp) :
+    let s := (runT { Rpc.init n with prog := p } ops).1
+    TimeInv s ∧ Monitored s ∧ (s.dead = true → Cleaned s) :=
+  ⟨TimeInv_runT ops _ (by intro h; simp [Rpc.init] at h),
+   MInv_monitored _ (MInv_runT ops _ (MInv_init n hn p))⟩
+
+theorem DL_request (s : Rpc) (ht : TInv s []) (hti : TimeInv s) (hf : ∀ y ∈ s.ring.flatten, y ≤ s.idAlloc)
+    (c m : Nat) : DL s.now s.ring.length (s.idAlloc + 1) (s.request c m).1 (s.ring.length - 1) := by
+  have hl := Live_request s c m ht.1 hf
+  have hpos : 0 < s.ring.length := List.length_pos_iff.mpr ht.1
+  refine ⟨hl, TInv_request s c m [] ht, ?_⟩
+  rw [(request_time s c m).2]
+  unfold Qb
+  by_cases hv : s.vn = 0
+  · simp only [hv, if_true]; omega
+  · simp only [hv, if_false]
+    have := hti (ht.2.2.1.mpr (by omega))
+    omega
+
+/-- **C14_deadline_ms.** A request is issued at clock `t0` (any live state: ring non-degenerate,
+monitor and timer invariants of `C14_timer_phase`). For every timed continuation in which the object is
+not cleaned up (scripts re-entering it in every other way included), the tick that hands its id to the
+timeout handler was scheduled for an instant in `(t0 + (N−1)·1000, t0 + N·1000]` and is executed by the
+loop at or after that instant (never early). -/
+theorem C14_deadline_ms (s : Rpc) (hs : Prog.safe s.prog) (hr : s.ring ≠ []) (hm : Monitored s) (hti : TimeInv s)
+    (hf : ∀ y ∈ s.ring.flatten, y ≤ s.idAlloc) (c m : Nat) (ops : List TOp) (hnc : NoCleanupT ops) (e : TickRec)
+    (he : e ∈ logT (s.request c m).1 ops) (hx : s.idAlloc + 1 ∈ e.items) :
+    s.now + (s.ring.length - 1) * 1000 < e.sched ∧ e.sched ≤ s.now + s.ring.length * 1000 ∧
+    e.sched ≤ e.clock :=
+  have ht : TInv s [] := ⟨hr, hm.2.1, hm.2.2, fun e he => Or.inl (hm.1 e he)⟩
+  logT_bound s.now s.ring.length (s.idAlloc + 1) ops _ (Safe_of_prog _ _ (request_prog s c m) hs) hnc
+    (Or.inl ⟨_, DL_request s ht hti hf c m⟩) e he hx
+
+/-- **C14_deadline_reached.** … and it is not late either: once the clock has reached
+`t0 + N·1000` (and the loop has run, which every `adv` does), the id has been handed out — together
+with `C14_callback_timeout` the callback has run with the timeout code by then. -/
+theorem C14_deadline_reached (s : Rpc) (hs : Prog.safe s.prog) (hr : s.ring ≠ []) (hm : Monitored s) (hti : TimeInv s)
+    (hf : ∀ y ∈ s.ring.flatten, y ≤ s.idAlloc) (c m : Nat) (ops : List TOp) (hnc : NoCleanupT ops)
+    (hclock : s.now + s.ring.length * 1000 ≤ (runT (s.request c m).1 ops).1.now) :
+    cnt (s.idAlloc + 1) (runT (s.request c m).1 ops).1.ring = 0 := by
+  have ht : TInv s [] := ⟨hr, hm.2.1, hm.2.2, fun e he => Or.inl (hm.1 e he)⟩
+  have hd := DL_request s ht hti hf c m
+  rcases runT_DL s.now s.ring.length (s.idAlloc + 1) ops _ (Safe_of_prog _ _ (request_prog s c m) hs) hnc
+    (Or.inl ⟨_, hd⟩) with ⟨m', hl, hti', hq⟩ | hg
+  · exfalso
+    have hv := Live_vn_pos _ _ m' [] hl hti'
+    have hon := hti'.2.2.1.mpr (by omega)
+    have htime : TimeInv (runT (s.request c m).1 ops).1 :=
+      TimeInv_runT ops _ (TimeInv_of_TStep _ _ (TStep_request s c m) hti)
+    have := htime hon
+    unfold Qb at hq
+    omega
+  · exact hg.2.2
+
+/-! ### non-vacuity / concrete runs (evaluation, not part of the unbounded claims) -/
+
+/-- the program used in the examples: script 0 retries (a request with the plain script 1), script 2
+feeds a duplicate of response 1 and an unknown one, script 3 cleans up; handler 0 replaces itself by
+handler 1 and answers 0, handler 1 is asynchronous and issues a request -/
+def exProg : Prog :=
+  { cbs := [[.request 1 0], [], [.inject 1 7, .inject 99 0, .notify 2], [.cleanup, .request 1 0]],
+    hs := [⟨[.setService 0 (some 1)], .sync 0⟩, ⟨[.request 1 1], .async⟩] }
+
+example : RInv { Rpc.init 3 with prog := exProg } := RInv_init 3 exProg
+example : QuietFor ({ Rpc.init 3 with prog := { exProg with cbs := exProg.cbs.take 2 } } : Rpc) 2 := by
+  constructor <;> simp [exProg, Rpc.init, actOkFor, Act.noCleanup, injectOk]
+example : Prog.safe { exProg with cbs := exProg.cbs.take 3 } := by constructor <;> decide
+
+-- the hypotheses of C14_ring_expiry / C14_callback_timeout / C14_callback_exactly_once / C14_callback_response
+-- are met by a non-trivial history (a retrying callback, a handler issuing a request, responses to other /
+-- unknown / huge ids)
+example :
+    let s := (run ({ Rpc.init 3 with prog := { exProg with cbs := exProg.cbs.take 2 } } : Rpc)
+      [.setService 0 (some 0), .request 1 0, .tick]).1
+    let ops : List Op := [.request 0 0, .tick, .response 1 0, .inRequest 5 0, .inRequest 6 0, .response 4294967298 0, .response 7 5, .tick]
+    s.ring ≠ [] ∧ (∀ y ∈ s.ring.flatten, y ≤ s.idAlloc) ∧ QuietFor s (s.idAlloc + 1) ∧
+    NoResponseFor (s.idAlloc + 1) ops ∧ NoCleanupOps ops ∧ ticks ops + 1 = s.ring.length := by
+  refine ⟨by decide, by decide, ?_, ?_, by decide, by decide⟩
+  · have hp : (run ({ Rpc.init 3 with prog := { exProg with cbs := exProg.cbs.take 2 } } : Rpc)
+        [.setService 0 (some 0), .request 1 0, .tick]).1.prog = { exProg with cbs := exProg.cbs.take 2 } := run_prog _ _
+    unfold QuietFor; rw [hp]
+    constructor <;> simp [exProg, actOkFor, Act.noCleanup, injectOk]
+  intro rid code h
+  simp at h
+  rcases h with ⟨rfl, _⟩ | ⟨rfl, _⟩ | ⟨rfl, _⟩ <;> decide
+
+-- response before the deadline; duplicate ignored; second request times out at the 2nd tick, once
+example :
+    (run (Rpc.init 2) [.request 0 0, .response 1 0, .response 1 0, .request 0 0, .tick, .response 9 0,
+                       .tick, .tick, .response 2 0]).2
+      = [.sent 1 0, .fired 0 0, .sent 2 0, .fired 1 kRequestTimeout] := by decide
+
+-- a callback feeding a duplicate of its own response and an unknown one, then notifying: runs once
+example :
+    (run ({ Rpc.init 2 with prog := exProg } : Rpc) [.request 2 0, .response 1 0, .response 1 0]).2
+      = [.sent 1 0, .fired 0 0, .sent 0 2] := by decide
+
+-- cleanup() from a completion callback: the request made after it is refused, the other pending request
+-- never completes, late responses and ticks do nothing
+example :
+    (run ({ Rpc.init 1 with prog := exProg } : Rpc) [.request 3 0, .request 1 0, .response 1 0, .response 2 0, .tick, .request 1 0]).2
+      = [.sent 1 0, .sent 2 0, .fired 0 0, .misuse, .misuse] := by decide
+
+-- a handler replacing itself: the running one answers, the next request meets the new (async, requesting) one
+example :
+    (run ({ Rpc.init 2 with prog := exProg } : Rpc) [.setService 0 (some 0), .inRequest 4 0, .inRequest 5 0, .inRequest 0 3]).2
+      = [.called 4 0, .answered 4 0, .called 5 1, .sent 1 1, .answered 0 kMethodNotFound] := by decide
+
+-- timed layer: N = 2, request at t0 = 0 with the timer off: ticks scheduled for 1000 and 2000, run late
+-- (at 1100 and 2100) because the clock jumps; the id is handed out by the one scheduled for 2000 = t0 + N·1000
+example : logT ((Rpc.init 2).request 0).1 [.adv 500, .adv 600, .adv 1000]
+      = [⟨1000, 1100, []⟩, ⟨2000, 2100, [1]⟩] := by decide
+example : Monitored (Rpc.init 2) ∧ TimeInv (Rpc.init 2) ∧ Prog.safe (Rpc.init 2).prog :=
+  ⟨by decide, by intro h; simp [Rpc.init] at h, by constructor <;> decide⟩
+
+-- world: async service at b, answered twice and once more after a's timeout; a's callback runs once
+example : ((World.run { a := Rpc.init 1, b := ({ Rpc.init 2 with prog := { hs := [⟨[], .async⟩] } } : Rpc).setService 0 (some 0) }
+      [.api false (.request 1 0), .deliver true 0, .api true (.apiRespond 1 0), .api true (.apiRespond 1 5),
+       .deliver false 1, .deliver false 0, .api false .tick, .api true (.apiRespond 1 0), .deliver false 0]).2.1)
+      = [.sent 1 0, .fired 0 5] := by decide
+
+-- n = 1, 3: expiry exactly at the n-th tick; a retried request gets its own deadline
+example : (run ({ Rpc.init 1 with prog := exProg } : Rpc) [.request 0 0, .tick, .tick, .tick]).2
+      = [.sent 1 0, .fired 0 kRequestTimeout, .sent 2 0, .fired 1 kRequestTimeout] := by decide
+example : (run (Rpc.init 3) [.request 0 0, .tick, .tick]).2 = [.sent 1 0] ∧
+          (run (Rpc.init 3) [.request 0 0, .tick, .tick, .tick]).2 = [.sent 1 0, .fired 0 kRequestTimeout] := by decide
 
 /-- **C14_raw_backscan_in_bounds.** Whenever the scanner is inside a string (the only place the
 backward backslash loop `for (j = i - 1; j != 0 && …)` runs), at least one character has been read:
@@ -516,211 +858,6 @@ theorem C14_encoder_roundtrip {μ : Type} (parse : List Byte → Option μ) (dum
     unfold recvData
     rw [(C14_packet_roundtrip (dump j)).2 h2]
     simp [hpd]
-
-/-! ## (6) server half -/
-
-/-- **C14_server_request_answer.** One inbound request: an unknown method is answered with exactly
-one `kMethodNotFound` error; a synchronous service with exactly one response carrying the service's
-code (a notification, id 0, with none); an asynchronous service with none, the id being remembered. -/
-theorem C14_server_request_answer (s : Srv) (id code : Int) :
-    (s.recvRequest id .unknown).2 = [.sent id kMethodNotFound] ∧
-    (id ≠ 0 → (s.recvRequest id (.sync code)).2 = [.called id, .sent id code]) ∧
-    ((s.recvRequest 0 (.sync code)).2 = [.called 0] ∧ (s.recvRequest 0 .async).2 = [.called 0]) ∧
-    (id ≠ 0 → (s.recvRequest id .async).2 = [.called id] ∧ id ∈ (s.recvRequest id .async).1.tobe) := by
-  refine ⟨rfl, ?_, ⟨rfl, rfl⟩, ?_⟩
-  · intro h; simp [Srv.recvRequest, Srv.respond, h]
-  · intro h
-    refine ⟨by simp [Srv.recvRequest, h], ?_⟩
-    simp only [Srv.recvRequest, h, ne_eq, not_false_eq_true, if_true]
-    unfold Srv.monitorAdd
-    simp only
-    split <;> split <;> simp_all
-
-/-- **C14_server_sends_exactly.** For every sequence of inbound requests (any ids, repeated ids,
-any methods), `respond()` calls and respond-timeout ticks, and every id `i`: the number of
-responses sent with id `i` is exactly the number called for — one per request to a synchronous
-service, one error per request to an unknown method, one per `respond()` call.  The library never
-answers a request twice by itself and the respond timeout sends nothing. -/
-theorem C14_server_sends_exactly (s : Srv) (ops : List SOp) (i : Int) :
-    sentCount i (s.run ops).2 = expectedSends i ops := Srv_run_sends ops i s
-
-/-- **C14_server_respond_unchecked** (as coded; outside the statement of C14, which speaks of the
-requesting side): `respond()` does not consult `tobe_respond_` — it sends for an id that was never
-requested, sends again when called twice, and still sends after the respond timeout has dropped
-the id.  "Answered at most once" therefore holds for the library (`C14_server_sends_exactly`) but
-is not enforced against the application. -/
-theorem C14_server_respond_unchecked :
-    ((Srv.init 2).respond 9 0).2 = [.sent 9 0] ∧
-    ((Srv.init 2).run [.recv 1 .async, .respond 1 0, .respond 1 0]).2 = [.called 1, .sent 1 0, .sent 1 0] ∧
-    ((Srv.init 1).run [.recv 1 .async, .tick, .respond 1 0]).2 = [.called 1, .sent 1 0] ∧
-    ((Srv.init 1).run [.recv 1 .async, .tick]).1.tobe = [] := by decide
-
-/-! ## (7) two peers: the client's guarantees hold against any server and any pipe -/
-
-theorem world_step_client (w : World) (op : WOp) :
-    (w.step op).1.c = (run w.c (clientOp w op)).1 ∧ (w.step op).2.1 = (run w.c (clientOp w op)).2 := by
-  cases op with
-  | request c svc => simp [World.step, clientOp, run, step]
-  | notify svc => simp [World.step, clientOp, run, step]
-  | deliver b i =>
-    cases b with
-    | true =>
-      simp only [World.step, clientOp]
-      cases w.c2s[i]? <;> simp [run, World.serverRecv]
-    | false =>
-      simp only [World.step, clientOp]
-      cases w.s2c[i]? <;> simp [run, step, World.clientRecv]
-  | drop b i => cases b <;> simp [World.step, clientOp, run]
-  | dup b i => cases b <;> simp [World.step, clientOp, run]
-  | srespond id code => simp [World.step, clientOp, run]
-  | ctick => simp [World.step, clientOp, run, step]
-  | stick => simp [World.step, clientOp, run]
-
-/-- **C14_world_client_simulation.** Whatever the server peer and the pipe do (answer late, never,
-twice; drop, duplicate, reorder), what happens at the client peer is a run of the client model on
-the op sequence `clientOps` (its own requests, the responses actually delivered, its ticks). -/
-theorem C14_world_client_simulation (ops : List WOp) : ∀ w : World,
-    (w.run ops).1.c = (run w.c (clientOps w ops)).1 ∧ (w.run ops).2.1 = (run w.c (clientOps w ops)).2 := by
-  induction ops with
-  | nil => intro w; simp [World.run, clientOps, run]
-  | cons op ops ih =>
-    intro w
-    obtain ⟨h1, h2⟩ := world_step_client w op
-    obtain ⟨i1, i2⟩ := ih (w.step op).1
-    simp only [World.run, clientOps, run_append]
-    rw [← h1, ← h2, ← i1, ← i2]
-    exact ⟨rfl, rfl⟩
-
-/-- **C14_world_callback_once.** … hence, in the two-peer system, every completion callback of the
-client runs at most once, for every behaviour of the server application and of the pipe. -/
-theorem C14_world_callback_once (w : World) (h : RInv w.c) (ops : List WOp) (t : Nat) :
-    firedCount t (w.run ops).2.1 ≤ 1 := by
-  rw [(C14_world_client_simulation ops w).2]
-  exact (C14_callback_once w.c h _ t).1
-
-/-- **C14_world_callback_exactly_once.** … and a request for which no response with its id is
-delivered while the client sees `N − 1` of its ticks (the server answers never, or late, or its
-answers are lost) is completed exactly once, by the timeout of the `N`-th tick — later deliveries of
-late or duplicated answers included (`more`). -/
-theorem C14_world_callback_exactly_once (w : World) (hr : w.c.ring ≠ [])
-    (hf : ∀ y ∈ w.c.ring.flatten, y ≤ w.c.idAlloc) (hinv : RInv w.c) (chain : Bool) (svc : Service)
-    (ops more : List WOp)
-    (hno : NoResponseFor (w.c.idAlloc + 1) (clientOps (w.step (.request chain svc)).1 ops))
-    (ht : ticks (clientOps (w.step (.request chain svc)).1 ops) + 1 = w.c.ring.length) :
-    firedCount w.c.nTag (w.run (.request chain svc :: (ops ++ .ctick :: more))).2.1 = 1 := by
-  rw [(C14_world_client_simulation _ w).2]
-  have hsplit : clientOps w (.request chain svc :: (ops ++ .ctick :: more)) =
-      .request chain :: (clientOps (w.step (.request chain svc)).1 ops ++
-        .tick :: clientOps ((w.step (.request chain svc)).1.run (ops ++ [.ctick])).1 more) := by
-    simp only [clientOps, clientOp, List.singleton_append, List.cons.injEq, true_and]
-    have : ∀ (a b : List WOp) (v : World), clientOps v (a ++ b) = clientOps v a ++ clientOps (v.run a).1 b := by
-      intro a
-      induction a with
-      | nil => intro b v; simp [clientOps, World.run]
-      | cons x xs ih => intro b v; simp only [List.cons_append, clientOps, World.run, ih, List.append_assoc]
-    rw [show ops ++ WOp.ctick :: more = (ops ++ [.ctick]) ++ more by simp, this, this]
-    simp [clientOps, clientOp]
-  rw [hsplit]
-  simp only [run, step]
-  have hc : (w.step (.request chain svc)).1.c = (w.c.request chain).1 := by simp [World.step]
-  have := C14_callback_exactly_once w.c hr hf hinv chain _ (clientOps ((w.step (.request chain svc)).1.run (ops ++ [.ctick])).1 more) hno ht
-  simp only [firedCount_append]
-  have h0 : firedCount w.c.nTag (w.c.request chain).2 = 0 := by simp [Rpc.request, firedCount]
-  omega
-
-/-! ## (8) the deadline in milliseconds, under the tick timer as coded -/
-
-/-- **C14_timer_phase.** Along every timed history (requests, notifications, responses, clock
-advances of any size) from `initialize(proto, N)`: while the 1-s timer is enabled its next expiry lies
-in `(now, now + 1000]` — in particular the fuel `ms / 1000 + 2` of the loop's catch-up
-(`handleExpiredTimers`) always suffices: no due tick is left unexecuted — and the monitor invariant
-(`C14_pending_timer_on`) holds. -/
-theorem C14_timer_phase (n : Nat) (hn : 1 ≤ n) (ops : List TOp) :
-    TimeInv (runT (Rpc.init n) ops).1 ∧ TInv (runT (Rpc.init n) ops).1 [] :=
-  ⟨TimeInv_runT ops _ (by intro h; simp [Rpc.init] at h), TInv_runT ops _ (TInv_init n hn)⟩
-
-theorem DL_request (s : Rpc) (ht : TInv s []) (hti : TimeInv s) (hf : ∀ y ∈ s.ring.flatten, y ≤ s.idAlloc)
-    (c : Bool) : DL s.now s.ring.length (s.idAlloc + 1) (s.request c).1 (s.ring.length - 1) := by
-  have hl := Live_request s c ht.1 hf
-  have hpos : 0 < s.ring.length := List.length_pos_iff.mpr ht.1
-  refine ⟨hl, TInv_request s c [] ht, ?_⟩
-  rw [(request_time s c).2]
-  unfold Qb
-  by_cases hv : s.vn = 0
-  · simp only [hv, if_true]; omega
-  · simp only [hv, if_false]
-    have := hti (ht.2.2.1.mpr (by omega))
-    omega
-
-/-- **C14_deadline_ms.** A request is issued at clock `t0` (any reachable state: monitor and timer
-invariants of `C14_timer_phase`). For every timed continuation, the tick that hands its id to the
-timeout handler was scheduled for an instant in `(t0 + (N−1)·1000, t0 + N·1000]` and is executed by
-the loop at or after that instant (never early). -/
-theorem C14_deadline_ms (s : Rpc) (ht : TInv s []) (hti : TimeInv s)
-    (hf : ∀ y ∈ s.ring.flatten, y ≤ s.idAlloc) (c : Bool) (ops : List TOp) (e : TickRec)
-    (he : e ∈ logT (s.request c).1 ops) (hx : s.idAlloc + 1 ∈ e.items) :
-    s.now + (s.ring.length - 1) * 1000 < e.sched ∧ e.sched ≤ s.now + s.ring.length * 1000 ∧
-    e.sched ≤ e.clock :=
-  logT_bound s.now s.ring.length (s.idAlloc + 1) ops _ (Or.inl ⟨_, DL_request s ht hti hf c⟩) e he hx
-
-/-- **C14_deadline_reached.** … and it is not late either: once the clock has reached
-`t0 + N·1000` (and the loop has run, which every `adv` does), the id has been handed out — together
-with `C14_callback_timeout` the callback has run with the timeout code by then. -/
-theorem C14_deadline_reached (s : Rpc) (ht : TInv s []) (hti : TimeInv s)
-    (hf : ∀ y ∈ s.ring.flatten, y ≤ s.idAlloc) (c : Bool) (ops : List TOp)
-    (hclock : s.now + s.ring.length * 1000 ≤ (runT (s.request c).1 ops).1.now) :
-    cnt (s.idAlloc + 1) (runT (s.request c).1 ops).1.ring = 0 := by
-  have hd := DL_request s ht hti hf c
-  rcases runT_DL s.now s.ring.length (s.idAlloc + 1) ops _ (Or.inl ⟨_, hd⟩) with ⟨m, hl, hti', hq⟩ | hg
-  · exfalso
-    have hv := Live_vn_pos _ _ m [] hl hti'
-    have hon := hti'.2.2.1.mpr (by omega)
-    have htime : TimeInv (runT (s.request c).1 ops).1 :=
-      TimeInv_runT ops _ (TimeInv_of_TStep _ _ (TStep_request s c) hti)
-    have := htime hon
-    unfold Qb at hq
-    omega
-  · exact hg.2.2
-
-/-! ### non-vacuity / concrete runs (evaluation, not part of the unbounded claims) -/
-
-example : RInv (Rpc.init 3) := RInv_init 3
-
--- the hypotheses of C14_ring_expiry / C14_callback_timeout / C14_callback_exactly_once are met by a
--- non-trivial history (other requests, a chained one, responses to other / unknown / huge ids)
-example :
-    let s := (run (Rpc.init 3) [.request false, .tick]).1
-    s.ring ≠ [] ∧ (∀ y ∈ s.ring.flatten, y ≤ s.idAlloc) ∧ RInv s ∧
-    NoResponseFor (s.idAlloc + 1) [.request true, .tick, .response 1 0, .response 4294967298 0, .response 7 5, .tick] ∧
-    ticks [.request true, .tick, .response 1 0, .response 4294967298 0, .response 7 5, .tick] + 1 = s.ring.length := by
-  refine ⟨by decide, by decide, (C14_callback_once _ (RInv_init 3) _ 0).2.2.2, ?_, by decide⟩
-  intro rid code h
-  simp at h
-  rcases h with ⟨rfl, _⟩ | ⟨rfl, _⟩ | ⟨rfl, _⟩ <;> decide
-
--- response before the deadline; duplicate ignored; second request times out at the 2nd tick, once
-example :
-    (run (Rpc.init 2) [.request false, .response 1 0, .response 1 0, .request false, .tick, .response 9 0,
-                       .tick, .tick, .response 2 0]).2
-      = [.sent 1, .fired 0 0, .sent 2, .fired 1 kRequestTimeout] := by decide
-
--- timed layer: N = 2, request at t0 = 0 with the timer off: ticks scheduled for 1000 and 2000, run late
--- (at 1100 and 2100) because the clock jumps; the id is handed out by the one scheduled for 2000 = t0 + N·1000
-example : logT ((Rpc.init 2).request false).1 [.adv 500, .adv 600, .adv 1000]
-      = [⟨1000, 1100, []⟩, ⟨2000, 2100, [1]⟩] := by decide
-example : TInv (Rpc.init 2) [] ∧ TimeInv (Rpc.init 2) := ⟨TInv_init 2 (by decide), by intro h; simp [Rpc.init] at h⟩
-
--- world: async service, answered twice and once more after the client's timeout; the callback runs once
-example : ((World.run { c := Rpc.init 1, v := Srv.init 2 }
-      [.request false .async, .deliver true 0, .srespond 1 0, .srespond 1 5, .deliver false 1, .deliver false 0,
-       .ctick, .srespond 1 0, .deliver false 0]).2.1)
-      = [.sent 1, .fired 0 5] := by decide
-
--- n = 1, 3: expiry exactly at the n-th tick; a chained request gets its own deadline
-example : (run (Rpc.init 1) [.request true, .tick, .tick, .tick]).2
-      = [.sent 1, .fired 0 kRequestTimeout, .sent 2, .fired 1 kRequestTimeout] := by decide
-example : (run (Rpc.init 3) [.request false, .tick, .tick]).2 = [.sent 1] ∧
-          (run (Rpc.init 3) [.request false, .tick, .tick, .tick]).2 = [.sent 1, .fired 0 kRequestTimeout] := by decide
 
 -- the header round trip and the scanner on a concrete nested text with quotes/backslashes/brackets in strings
 example : decodeHeader 0x3e5a (encodeHeader 0x3e5a [0x7b, 0x7d] ++ [1, 2, 3]) = .frame [0x7b, 0x7d] 8 := by decide
